@@ -1309,4 +1309,787 @@ theorem diffPos_sorted (h : Store) (l : List ObjId) (src : List ObjId) (pos : Na
       · exact ih _
 
 
+/-! ## Frame: which objects an operation can write -/
+
+/-- objects allocated in `h` and outside `w` are the same in `h'`; `h'` is not smaller -/
+structure Frame (h h' : Store) (w : List ObjId) : Prop where
+  next_le : h.next ≤ h'.next
+  same : ∀ i : Nat, i < h.next → i ∉ w → h'.get i = h.get i
+
+theorem Frame.refl (h : Store) (w : List ObjId) : Frame h h w := ⟨Nat.le_refl _, fun _ _ _ => rfl⟩
+
+theorem Frame.trans {a b c : Store} {w w' : List ObjId} (x : Frame a b w) (y : Frame b c w')
+    (sub : ∀ i : Nat, i < a.next → i ∈ w' → i ∈ w) : Frame a c w :=
+  ⟨Nat.le_trans x.next_le y.next_le, fun i hi hw => by
+    rw [y.same i (Nat.lt_of_lt_of_le hi x.next_le) (fun c => hw (sub i hi c)), x.same i hi hw]⟩
+
+theorem Frame.mono {a b : Store} {w w' : List ObjId} (x : Frame a b w) (sub : ∀ i, i ∈ w → i ∈ w') :
+    Frame a b w' := ⟨x.next_le, fun i hi hw => x.same i hi (fun c => hw (sub i c))⟩
+
+theorem frame_alloc (h : Store) (p : Par) (w : List ObjId) : Frame h (h.alloc p).1 w :=
+  ⟨by simp, fun i hi _ => by grind⟩
+
+theorem frame_put (h : Store) (t : ObjId) (p : Par) {w : List ObjId} (ht : t ∈ w) : Frame h (h.put t p) w :=
+  ⟨by simp, fun i _ hw => by
+    have : i ≠ t := fun c => hw (c ▸ ht)
+    simp [this]⟩
+
+theorem setParameterValue_frame (h : Store) (l : List ObjId) (n : String) (v : Rat) :
+    Frame h (setParameterValue h l n v).heap l := by
+  unfold setParameterValue
+  split
+  · exact Frame.refl ..
+  · next i e =>
+    split
+    · exact frame_put h i _ (find?_some e).1
+    · exact Frame.refl ..
+
+theorem addParameter_frame (h : Store) (l : List ObjId) (p : Par) (w : List ObjId) :
+    Frame h (addParameter h l p).heap w := by
+  unfold addParameter
+  split
+  · exact Frame.refl ..
+  · exact frame_alloc ..
+
+/-- ids of the result list: old ones or fresh ones -/
+theorem addParameter_list (h : Store) (l : List ObjId) (p : Par) :
+    ∀ i : Nat, i ∈ (addParameter h l p).list → i ∈ l ∨ h.next ≤ i := by
+  unfold addParameter
+  split
+  · exact fun i hi => Or.inl hi
+  · intro i hi
+    simp only [alloc_snd, List.mem_append, List.mem_singleton] at hi
+    rcases hi with hi | hi
+    · exact Or.inl hi
+    · exact Or.inr (by omega)
+
+theorem addParameters_frame (src : List ObjId) (h : Store) (l : List ObjId) :
+    Frame h (addParameters h l src).heap [] := by
+  induction src generalizing h l with
+  | nil => exact Frame.refl ..
+  | cons i rest ih =>
+    unfold addParameters; dsimp only
+    split
+    · exact addParameter_frame ..
+    · exact (addParameter_frame h l _ []).trans (ih _ _) (fun _ _ c => c)
+
+theorem shareParameter_frame (h : Store) (l : List ObjId) (i : ObjId) :
+    Frame h (shareParameter h l i).heap l := by
+  unfold shareParameter
+  split
+  · exact setParameterValue_frame ..
+  · exact Frame.refl ..
+
+theorem shareParameter_list (h : Store) (l : List ObjId) (i : ObjId) :
+    ∀ x, x ∈ (shareParameter h l i).list → x ∈ l ∨ x = i := by
+  unfold shareParameter
+  split
+  · exact fun x hx => Or.inl hx
+  · intro x hx
+    simpa using hx
+
+theorem shareParameter_next (h : Store) (l : List ObjId) (i : ObjId) :
+    (shareParameter h l i).heap.next = h.next := by
+  unfold shareParameter setParameterValue
+  split
+  · dsimp only; split
+    · rfl
+    · split <;> rfl
+  · rfl
+
+/-- `shareParameters` may write the objects of the list and those it takes from the source -/
+theorem shareParameters_frame (src : List ObjId) (h : Store) (l : List ObjId) :
+    Frame h (shareParameters h l src).heap (l ++ src) := by
+  induction src generalizing h l with
+  | nil => exact Frame.refl ..
+  | cons i rest ih =>
+    unfold shareParameters; dsimp only
+    have f1 := (shareParameter_frame h l i).mono (w' := l ++ i :: rest) (fun x hx => List.mem_append_left _ hx)
+    split
+    · exact f1
+    · refine f1.trans (ih _ _) ?_
+      intro x _ hx
+      rcases List.mem_append.1 hx with hx | hx
+      · rcases shareParameter_list h l i x hx with hx | hx
+        · exact List.mem_append_left _ hx
+        · exact List.mem_append_right _ (hx ▸ List.mem_cons_self ..)
+      · exact List.mem_append_right _ (List.mem_cons_of_mem _ hx)
+
+theorem includeParameters_frame (src : List ObjId) (h : Store) (l : List ObjId) :
+    Frame h (includeParameters h l src).heap l := by
+  induction src generalizing h l with
+  | nil => exact Frame.refl ..
+  | cons i rest ih =>
+    unfold includeParameters; dsimp only
+    split
+    · have f1 := setParameterValue_frame h l (nameOf h i) (h.get i).value
+      split
+      · exact f1
+      · exact f1.trans (ih _ _) (fun _ _ c => c)
+    · refine (frame_alloc h (h.get i) l).trans (ih _ _) ?_
+      intro x hx hm
+      simp only [alloc_snd, List.mem_append, List.mem_singleton] at hm
+      rcases hm with hm | hm
+      · exact hm
+      · omega
+
+theorem setParameter_frame (h : Store) (l : List ObjId) (k : Nat) (p : Par) (w : List ObjId) :
+    Frame h (setParameter h l k p).heap w := by
+  unfold setParameter
+  split
+  · exact Frame.refl ..
+  · split
+    · exact Frame.refl ..
+    · exact frame_alloc ..
+
+theorem applyAll_frame (src : List ObjId) (rest : List ObjId) (h : Store) :
+    Frame h (applyAll h src rest).heap rest := by
+  induction rest generalizing h with
+  | nil => exact Frame.refl ..
+  | cons i rest ih =>
+    unfold applyAll
+    split
+    · exact Frame.refl ..
+    · split
+      · exact (frame_put h i _ (List.mem_cons_self ..)).trans (ih _) (fun _ _ c => List.mem_cons_of_mem _ c)
+      · exact Frame.refl ..
+
+theorem setAllParametersValues_frame (h : Store) (l src : List ObjId) :
+    Frame h (setAllParametersValues h l src).heap l := by
+  unfold setAllParametersValues
+  split
+  · exact Frame.refl ..
+  · exact applyAll_frame ..
+
+theorem applySome_frame (l : List ObjId) (src : List ObjId) (h : Store) :
+    Frame h (applySome h l src).heap l := by
+  induction src generalizing h with
+  | nil => exact Frame.refl ..
+  | cons s rest ih =>
+    unfold applySome
+    split
+    · exact ih _
+    · next t e =>
+      split
+      · exact (frame_put h t _ (find?_some e).1).trans (ih _) (fun _ _ c => c)
+      · exact Frame.refl ..
+
+theorem setParametersValues_frame (h : Store) (l src : List ObjId) :
+    Frame h (setParametersValues h l src).heap l := by
+  unfold setParametersValues
+  split
+  · exact Frame.refl ..
+  · exact applySome_frame ..
+
+theorem matchSome_frame (l : List ObjId) (src : List ObjId) (h : Store) (pos : Nat) :
+    Frame h (matchSome h l pos src).heap l := by
+  induction src generalizing h pos with
+  | nil => exact Frame.refl ..
+  | cons s rest ih =>
+    unfold matchSome
+    split
+    · exact ih _ _
+    · next t e =>
+      split
+      · split
+        · exact (frame_put h t _ (find?_some e).1).trans (ih _ _) (fun _ _ c => c)
+        · exact Frame.refl ..
+      · exact ih _ _
+
+theorem matchParametersValues_frame (h : Store) (l src : List ObjId) :
+    Frame h (matchParametersValues h l src).heap l := by
+  unfold matchParametersValues
+  split
+  · exact Frame.refl ..
+  · exact matchSome_frame ..
+
+theorem setAllParameters_frame (src : List ObjId) (rest : List ObjId) (h : Store) :
+    Frame h (setAllParameters h src rest).heap rest := by
+  induction rest generalizing h with
+  | nil => exact Frame.refl ..
+  | cons i rest ih =>
+    unfold setAllParameters
+    split
+    · exact Frame.refl ..
+    · exact (frame_put h i _ (List.mem_cons_self ..)).trans (ih _) (fun _ _ c => List.mem_cons_of_mem _ c)
+
+theorem setParameters_frame (l : List ObjId) (src : List ObjId) (h : Store) :
+    Frame h (setParameters h l src).heap l := by
+  induction src generalizing h with
+  | nil => exact Frame.refl ..
+  | cons s rest ih =>
+    unfold setParameters
+    split
+    · exact Frame.refl ..
+    · next t e => exact (frame_put h t _ (find?_some e).1).trans (ih _) (fun _ _ c => c)
+
+theorem matchParameters_frame (l : List ObjId) (src : List ObjId) (h : Store) :
+    Frame h (matchParameters h l src).heap l := by
+  induction src generalizing h with
+  | nil => exact Frame.refl ..
+  | cons s rest ih =>
+    unfold matchParameters
+    split
+    · exact ih _
+    · next t e => exact (frame_put h t _ (find?_some e).1).trans (ih _) (fun _ _ c => c)
+
+theorem cloneAll_frame (l : List ObjId) (h : Store) : Frame h (cloneAll h l).1 [] := by
+  induction l generalizing h with
+  | nil => exact Frame.refl ..
+  | cons a t ih =>
+    simp only [cloneAll]
+    exact (frame_alloc h _ []).trans (ih _) (fun _ _ c => c)
+
+theorem createSubListNames_frame (l : List ObjId) (ns : List String) (h : Store) (acc : List ObjId) :
+    Frame h (createSubListNames h l acc ns).heap [] := by
+  induction ns generalizing h acc with
+  | nil => exact Frame.refl ..
+  | cons n rest ih =>
+    unfold createSubListNames
+    split
+    · exact Frame.refl ..
+    · dsimp only
+      split
+      · exact addParameter_frame ..
+      · exact (addParameter_frame h acc _ []).trans (ih _ _) (fun _ _ c => c)
+
+theorem createSubListIdx_frame (l : List ObjId) (idx : List Nat) (h : Store) (acc : List ObjId) :
+    Frame h (createSubListIdx h l acc idx).heap [] := by
+  induction idx generalizing h acc with
+  | nil => exact Frame.refl ..
+  | cons n rest ih =>
+    unfold createSubListIdx
+    split
+    · exact ih _ _
+    · dsimp only
+      split
+      · exact addParameter_frame ..
+      · exact (addParameter_frame h acc _ []).trans (ih _ _) (fun _ _ c => c)
+
+/-- sharing into a sub-list can only write objects of the source list (`acc ⊆ l`) -/
+theorem shareSubListNames_frame (l : List ObjId) (ns : List String) (h : Store) (acc : List ObjId)
+    (sub : ∀ x, x ∈ acc → x ∈ l) : Frame h (shareSubListNames h l acc ns).heap l := by
+  induction ns generalizing h acc with
+  | nil => exact Frame.refl ..
+  | cons n rest ih =>
+    unfold shareSubListNames
+    split
+    · exact Frame.refl ..
+    · next i e =>
+      dsimp only
+      have f1 := (shareParameter_frame h acc i).mono sub
+      have sub' : ∀ x, x ∈ (shareParameter h acc i).list → x ∈ l := by
+        intro x hx
+        rcases shareParameter_list h acc i x hx with hx | hx
+        · exact sub x hx
+        · exact hx ▸ (find?_some e).1
+      split
+      · exact f1
+      · exact f1.trans (ih _ _ sub') (fun _ _ c => c)
+
+theorem shareSubListIdx_frame (l : List ObjId) (idx : List Nat) (h : Store) (acc : List ObjId)
+    (sub : ∀ x, x ∈ acc → x ∈ l) : Frame h (shareSubListIdx h l acc idx).heap l := by
+  induction idx generalizing h acc with
+  | nil => exact Frame.refl ..
+  | cons n rest ih =>
+    unfold shareSubListIdx
+    split
+    · exact ih _ _ sub
+    · next i e =>
+      dsimp only
+      have f1 := (shareParameter_frame h acc i).mono sub
+      have sub' : ∀ x, x ∈ (shareParameter h acc i).list → x ∈ l := by
+        intro x hx
+        rcases shareParameter_list h acc i x hx with hx | hx
+        · exact sub x hx
+        · exact hx ▸ List.mem_of_getElem? e
+      split
+      · exact f1
+      · exact f1.trans (ih _ _ sub') (fun _ _ c => c)
+
+theorem getCommon_frame (l : List ObjId) (h0 : Store) (src : List ObjId) (h : Store) :
+    Frame h (getCommonParametersWith h0 l h src).1 [] := by
+  induction src generalizing h with
+  | nil => exact Frame.refl ..
+  | cons s rest ih =>
+    unfold getCommonParametersWith
+    split
+    · dsimp only
+      exact (frame_alloc h _ []).trans (ih _) (fun _ _ c => c)
+    · exact ih _
+
+theorem apSetAllParametersValues_frame (h : Store) (l src : List ObjId) :
+    Frame h (apSetAllParametersValues h l src).heap l := by
+  unfold apSetAllParametersValues; dsimp only
+  split <;> exact setAllParametersValues_frame ..
+
+theorem apSetParametersValues_frame (h : Store) (l src : List ObjId) :
+    Frame h (apSetParametersValues h l src).heap l := by
+  unfold apSetParametersValues; dsimp only
+  split <;> exact setParametersValues_frame ..
+
+theorem apSetParameterValue_frame (h : Store) (l : List ObjId) (pre n : String) (v : Rat) :
+    Frame h (apSetParameterValue h l pre n v).heap l := by
+  unfold apSetParameterValue; dsimp only
+  have f1 := setParameterValue_frame h l (pre ++ n) v
+  split
+  · exact f1
+  · have f2 := (createSubListNames_frame l [pre ++ n] (setParameterValue h l (pre ++ n) v).heap []).mono
+      (w' := l) (fun _ c => by cases c)
+    split <;> exact f1.trans f2 (fun _ _ c => c)
+
+/-- the owner's `matchParametersValues` writes the targets; building the notification list
+(shared sub-list of the source) can only touch source objects -/
+theorem apMatchParametersValues_frame (h : Store) (l src : List ObjId) :
+    Frame h (apMatchParametersValues h l src).heap (l ++ src) := by
+  unfold apMatchParametersValues; dsimp only
+  have f1 := (matchParametersValues_frame h l src).mono (w' := l ++ src) (fun x hx => List.mem_append_left _ hx)
+  split
+  · exact f1
+  · split
+    · have f2 := (shareSubListIdx_frame src (matchParametersValues h l src).pos
+        (matchParametersValues h l src).heap [] (fun _ c => by cases c)).mono
+        (w' := l ++ src) (fun x hx => List.mem_append_right _ hx)
+      exact f1.trans f2 (fun _ _ c => c)
+    · exact f1
+
+theorem setNamespace_frame (oldPre newPre : String) (l : List ObjId) (h : Store) :
+    Frame h (setNamespace h oldPre newPre l) l := by
+  induction l generalizing h with
+  | nil => exact Frame.refl ..
+  | cons i rest ih =>
+    unfold setNamespace; dsimp only
+    exact (frame_put h i _ (List.mem_cons_self ..)).trans (ih _) (fun _ _ c => List.mem_cons_of_mem _ c)
+
+
+/-! ### machine level -/
+
+theorem frame_step (s : State) (op : Op) :
+    Frame s.heap (step s op).1.heap (op.writes.flatMap s.lists) ∧
+    ∀ r, op.dest ≠ some r → (step s op).1.lists r = s.lists r := by
+  have setList_other : ∀ (s : State) (k r : Nat) (l : List ObjId), some k ≠ some r → (s.setList k l).lists r = s.lists r := by
+    intro s k r l h
+    have : r ≠ k := fun c => h (by rw [c])
+    simp [State.setList, this]
+  cases op with
+  | add k p | addPtr k p =>
+    simp only [step]
+    split
+    · exact ⟨Frame.refl .., fun _ _ => rfl⟩
+    · exact ⟨addParameter_frame .., fun r hr => setList_other _ _ _ _ hr⟩
+  | addAll k j => exact ⟨addParameters_frame .., fun r hr => setList_other _ _ _ _ hr⟩
+  | share k j n =>
+    simp only [step]
+    split
+    · exact ⟨Frame.refl .., fun _ _ => rfl⟩
+    · exact ⟨(shareParameter_frame ..).mono (fun x hx => by simp [Op.writes, hx]),
+        fun r hr => setList_other _ _ _ _ hr⟩
+  | shareAll k j =>
+    exact ⟨(shareParameters_frame ..).mono (fun x hx => by simpa [Op.writes] using hx),
+      fun r hr => setList_other _ _ _ _ hr⟩
+  | incl k j =>
+    exact ⟨(includeParameters_frame ..).mono (fun x hx => by simpa [Op.writes] using hx),
+      fun r hr => setList_other _ _ _ _ hr⟩
+  | setParam k i p =>
+    simp only [step]
+    split
+    · exact ⟨Frame.refl .., fun _ _ => rfl⟩
+    · exact ⟨setParameter_frame .., fun r hr => setList_other _ _ _ _ hr⟩
+  | setValue k n v =>
+    exact ⟨(setParameterValue_frame ..).mono (fun x hx => by simpa [Op.writes] using hx), fun _ _ => rfl⟩
+  | setAllValues k j =>
+    exact ⟨(setAllParametersValues_frame ..).mono (fun x hx => by simpa [Op.writes] using hx), fun _ _ => rfl⟩
+  | setValues k j =>
+    exact ⟨(setParametersValues_frame ..).mono (fun x hx => by simpa [Op.writes] using hx), fun _ _ => rfl⟩
+  | testValues k j => simp only [step]; split <;> exact ⟨Frame.refl .., fun _ _ => rfl⟩
+  | matchValues k j w =>
+    exact ⟨(matchParametersValues_frame ..).mono (fun x hx => by simpa [Op.writes] using hx), fun _ _ => rfl⟩
+  | setAllParams k j =>
+    exact ⟨(setAllParameters_frame ..).mono (fun x hx => by simpa [Op.writes] using hx), fun _ _ => rfl⟩
+  | setParams k j =>
+    exact ⟨(setParameters_frame ..).mono (fun x hx => by simpa [Op.writes] using hx), fun _ _ => rfl⟩
+  | matchParams k j =>
+    exact ⟨(matchParameters_frame ..).mono (fun x hx => by simpa [Op.writes] using hx), fun _ _ => rfl⟩
+  | delName k n =>
+    simp only [step]
+    split
+    · exact ⟨Frame.refl .., fun r hr => setList_other _ _ _ _ hr⟩
+    · exact ⟨Frame.refl .., fun _ _ => rfl⟩
+  | delNames k ns must => exact ⟨Frame.refl .., fun r hr => setList_other _ _ _ _ hr⟩
+  | delIdx k i =>
+    simp only [step]
+    split
+    · exact ⟨Frame.refl .., fun r hr => setList_other _ _ _ _ hr⟩
+    · exact ⟨Frame.refl .., fun _ _ => rfl⟩
+  | delIdxs k idx => exact ⟨Frame.refl .., fun r hr => setList_other _ _ _ _ hr⟩
+  | subNames k j ns =>
+    simp only [step, stepSub]
+    split
+    · exact ⟨createSubListNames_frame .., fun _ _ => rfl⟩
+    · exact ⟨createSubListNames_frame .., fun r hr => setList_other _ _ _ _ hr⟩
+  | subName k j n =>
+    simp only [step, stepSub]
+    split
+    · exact ⟨createSubListNames_frame .., fun _ _ => rfl⟩
+    · exact ⟨createSubListNames_frame .., fun r hr => setList_other _ _ _ _ hr⟩
+  | subIdxs k j idx =>
+    simp only [step, stepSub]
+    split
+    · exact ⟨createSubListIdx_frame .., fun _ _ => rfl⟩
+    · exact ⟨createSubListIdx_frame .., fun r hr => setList_other _ _ _ _ hr⟩
+  | subIdx k j i =>
+    simp only [step, stepSub]
+    split
+    · exact ⟨createSubListIdx_frame .., fun _ _ => rfl⟩
+    · exact ⟨createSubListIdx_frame .., fun r hr => setList_other _ _ _ _ hr⟩
+  | shareSubNames k j ns =>
+    have f := (shareSubListNames_frame (s.lists k) ns s.heap [] (fun _ c => by cases c)).mono
+      (w' := (Op.shareSubNames k j ns).writes.flatMap s.lists) (fun x hx => by simpa [Op.writes] using hx)
+    simp only [step, stepSub]
+    split
+    · exact ⟨f, fun _ _ => rfl⟩
+    · exact ⟨f, fun r hr => setList_other _ _ _ _ hr⟩
+  | shareSubIdxs k j idx =>
+    have f := (shareSubListIdx_frame (s.lists k) idx s.heap [] (fun _ c => by cases c)).mono
+      (w' := (Op.shareSubIdxs k j idx).writes.flatMap s.lists) (fun x hx => by simpa [Op.writes] using hx)
+    simp only [step, stepSub]
+    split
+    · exact ⟨f, fun _ _ => rfl⟩
+    · exact ⟨f, fun r hr => setList_other _ _ _ _ hr⟩
+  | common k j m => exact ⟨getCommon_frame .., fun r hr => setList_other _ _ _ _ hr⟩
+  | which k n => simp only [step]; split <;> exact ⟨Frame.refl .., fun _ _ => rfl⟩
+  | has k n => exact ⟨Frame.refl .., fun _ _ => rfl⟩
+  | names k => exact ⟨Frame.refl .., fun _ _ => rfl⟩
+  | getValue k n => simp only [step]; split <;> exact ⟨Frame.refl .., fun _ _ => rfl⟩
+  | size k => exact ⟨Frame.refl .., fun _ _ => rfl⟩
+  | copy k j | assign k j => exact ⟨cloneAll_frame .., fun r hr => setList_other _ _ _ _ hr⟩
+  | reset k => exact ⟨Frame.refl .., fun r hr => setList_other _ _ _ _ hr⟩
+  | apSetAll k j =>
+    exact ⟨(apSetAllParametersValues_frame ..).mono (fun x hx => by simpa [Op.writes] using hx), fun _ _ => rfl⟩
+  | apSetValue k n v =>
+    exact ⟨(apSetParameterValue_frame ..).mono (fun x hx => by simpa [Op.writes] using hx), fun _ _ => rfl⟩
+  | apSetValues k j =>
+    exact ⟨(apSetParametersValues_frame ..).mono (fun x hx => by simpa [Op.writes] using hx), fun _ _ => rfl⟩
+  | apMatch k j =>
+    exact ⟨(apMatchParametersValues_frame ..).mono (fun x hx => by simpa [Op.writes] using hx), fun _ _ => rfl⟩
+  | apNamespace k p =>
+    exact ⟨(setNamespace_frame ..).mono (fun x hx => by simpa [Op.writes] using hx), fun _ _ => rfl⟩
+
+/-! ## Sub-lists are `addParameters` / `shareParameters` of the selected objects -/
+
+theorem createSubListIdx_eq (l : List ObjId) (idx : List Nat) (h : Store) (acc : List ObjId) :
+    createSubListIdx h l acc idx = addParameters h acc (idx.filterMap (l[·]?)) := by
+  induction idx generalizing h acc with
+  | nil => rfl
+  | cons k rest ih =>
+    cases e : l[k]? with
+    | none => simp only [createSubListIdx, e, List.filterMap_cons]; exact ih _ _
+    | some i =>
+      simp only [createSubListIdx, e, List.filterMap_cons, addParameters]
+      split
+      · rfl
+      · exact ih _ _
+
+theorem shareSubListIdx_eq (l : List ObjId) (idx : List Nat) (h : Store) (acc : List ObjId) :
+    shareSubListIdx h l acc idx = shareParameters h acc (idx.filterMap (l[·]?)) := by
+  induction idx generalizing h acc with
+  | nil => rfl
+  | cons k rest ih =>
+    cases e : l[k]? with
+    | none => simp only [shareSubListIdx, e, List.filterMap_cons]; exact ih _ _
+    | some i =>
+      simp only [shareSubListIdx, e, List.filterMap_cons, shareParameters]
+      split
+      · rfl
+      · exact ih _ _
+
+theorem filterMap_find?_congr {h h' : Store} {l : List ObjId} (e : ∀ i ∈ l, nameOf h' i = nameOf h i)
+    (ns : List String) : ns.filterMap (find? h' l) = ns.filterMap (find? h l) := by
+  congr 1; funext n; exact find?_congr e n
+
+theorem createSubListNames_eq (l : List ObjId) (ns : List String) (h : Store) (acc : List ObjId)
+    (v : Valid h l) (va : Valid h acc) (all : ∀ n ∈ ns, find? h l n ≠ none) :
+    createSubListNames h l acc ns = addParameters h acc (ns.filterMap (find? h l)) := by
+  induction ns generalizing h acc with
+  | nil => rfl
+  | cons n rest ih =>
+    cases e : find? h l n with
+    | none => exact absurd e (all n (List.mem_cons_self ..))
+    | some i =>
+      simp only [createSubListNames, e, List.filterMap_cons, addParameters]
+      have g := addParameter_good (h := h) (l := acc) (h.get i) va (fun hk => hk i (find?_valid v e))
+      split
+      · rfl
+      · have nm : ∀ x ∈ l, nameOf (addParameter h acc (h.get i)).heap x = nameOf h x :=
+          fun x hx => g.pres.name_eq x (v x hx)
+        rw [ih _ _ (v.mono g.pres) g.valid (fun n' hn' => by
+          rw [find?_congr nm]; exact all n' (List.mem_cons_of_mem _ hn')), filterMap_find?_congr nm]
+
+theorem shareSubListNames_eq (l : List ObjId) (ns : List String) (h : Store) (acc : List ObjId)
+    (v : Valid h l) (va : Valid h acc) (all : ∀ n ∈ ns, find? h l n ≠ none) :
+    shareSubListNames h l acc ns = shareParameters h acc (ns.filterMap (find? h l)) := by
+  induction ns generalizing h acc with
+  | nil => rfl
+  | cons n rest ih =>
+    cases e : find? h l n with
+    | none => exact absurd e (all n (List.mem_cons_self ..))
+    | some i =>
+      simp only [shareSubListNames, e, List.filterMap_cons, shareParameters]
+      have g := shareParameter_good (h := h) (l := acc) va (find?_valid v e)
+      split
+      · rfl
+      · have nm : ∀ x ∈ l, nameOf (shareParameter h acc i).heap x = nameOf h x :=
+          fun x hx => g.pres.name_eq x (v x hx)
+        rw [ih _ _ (v.mono g.pres) g.valid (fun n' hn' => by
+          rw [find?_congr nm]; exact all n' (List.mem_cons_of_mem _ hn')), filterMap_find?_congr nm]
+
+theorem createSubListNames_found (l : List ObjId) (ns : List String) (h : Store) (acc : List ObjId)
+    (v : Valid h l) (va : Valid h acc) (ok : (createSubListNames h l acc ns).err = none) :
+    ∀ n ∈ ns, find? h l n ≠ none := by
+  induction ns generalizing h acc with
+  | nil => intro n hn; cases hn
+  | cons n rest ih =>
+    cases e : find? h l n with
+    | none => simp [createSubListNames, e] at ok
+    | some i =>
+      simp only [createSubListNames, e] at ok
+      have g := addParameter_good (h := h) (l := acc) (h.get i) va (fun hk => hk i (find?_valid v e))
+      split at ok
+      · cases ok
+      · intro n' hn'
+        rcases List.mem_cons.1 hn' with rfl | hn'
+        · simp [e]
+        · have nm : ∀ x ∈ l, nameOf (addParameter h acc (h.get i)).heap x = nameOf h x :=
+            fun x hx => g.pres.name_eq x (v x hx)
+          have := ih _ _ (v.mono g.pres) g.valid ok n' hn'
+          rwa [find?_congr nm] at this
+
+theorem shareSubListNames_found (l : List ObjId) (ns : List String) (h : Store) (acc : List ObjId)
+    (v : Valid h l) (va : Valid h acc) (ok : (shareSubListNames h l acc ns).err = none) :
+    ∀ n ∈ ns, find? h l n ≠ none := by
+  induction ns generalizing h acc with
+  | nil => intro n hn; cases hn
+  | cons n rest ih =>
+    cases e : find? h l n with
+    | none => simp [shareSubListNames, e] at ok
+    | some i =>
+      simp only [shareSubListNames, e] at ok
+      have g := shareParameter_good (h := h) (l := acc) va (find?_valid v e)
+      split at ok
+      · cases ok
+      · intro n' hn'
+        rcases List.mem_cons.1 hn' with rfl | hn'
+        · simp [e]
+        · have nm : ∀ x ∈ l, nameOf (shareParameter h acc i).heap x = nameOf h x :=
+            fun x hx => g.pres.name_eq x (v x hx)
+          have := ih _ _ (v.mono g.pres) g.valid ok n' hn'
+          rwa [find?_congr nm] at this
+
+/-! ### exact effect of `shareParameters` / `addParameters` when no name collides -/
+
+/-- no collision: the very same objects are appended, the heap is untouched -/
+theorem shareParameters_spec (src : List ObjId) (h : Store) (l : List ObjId)
+    (nd : (names h (l ++ src)).Nodup) :
+    shareParameters h l src = { heap := h, list := l ++ src } := by
+  induction src generalizing l with
+  | nil => simp [shareParameters]
+  | cons i rest ih =>
+    have hn : hasParameter h l (nameOf h i) = false := by
+      rw [hasParameter_false_iff]
+      rw [names_append] at nd
+      have := (List.nodup_append.1 nd).2.2
+      intro c
+      exact this _ c _ (by simp [names]) rfl
+    simp only [shareParameters, shareParameter, hn, Bool.false_eq_true, if_false]
+    rw [ih (l ++ [i]) (by simpa using nd)]
+    simp
+
+/-- no collision: fresh clones are appended in order; old objects are untouched -/
+theorem addParameters_spec (src : List ObjId) (h : Store) (l : List ObjId) (v : Valid h l) (vs : Valid h src)
+    (nd : (names h (l ++ src)).Nodup) :
+    let r := addParameters h l src
+    r.err = none ∧ r.list = l ++ List.range' h.next src.length ∧ r.heap.next = h.next + src.length ∧
+    (List.range' h.next src.length).map r.heap.get = src.map h.get ∧
+    (∀ i, i < h.next → r.heap.get i = h.get i) := by
+  induction src generalizing h l with
+  | nil => simp [addParameters]
+  | cons i rest ih =>
+    have hi := vs i (List.mem_cons_self ..)
+    have vr : Valid h rest := fun j hj => vs j (List.mem_cons_of_mem _ hj)
+    have hn : hasParameter h l (nameOf h i) = false := by
+      rw [hasParameter_false_iff]
+      rw [names_append] at nd
+      have := (List.nodup_append.1 nd).2.2
+      intro c
+      exact this _ c _ (by simp [names]) rfl
+    have e1 : addParameter h l (h.get i) = { heap := (h.alloc (h.get i)).1, list := l ++ [h.next] } := by
+      simp [addParameter, show hasParameter h l (h.get i).name = false from hn]
+    simp only [addParameters, e1]
+    have pr := pres_clone h hi
+    have g := addParameter_good (h := h) (l := l) (h.get i) v (fun hk => hk i hi)
+    rw [e1] at g
+    have nd1 : (names (h.alloc (h.get i)).1 ((l ++ [h.next]) ++ rest)).Nodup := by
+      have e : names (h.alloc (h.get i)).1 ((l ++ [h.next]) ++ rest) = names h (l ++ i :: rest) := by
+        simp only [names_append]
+        rw [pr.names v, pr.names vr]
+        simp [names, nameOf]
+      rw [e]; exact nd
+    obtain ⟨i1, i2, i3, i4, i5⟩ := ih (h.alloc (h.get i)).1 (l ++ [h.next]) g.valid (vr.mono pr) nd1
+    simp only [next_alloc] at i2 i3 i4 i5
+    refine ⟨i1, ?_, ?_, ?_, ?_⟩
+    · rw [i2]; simp [List.range'_succ]
+    · rw [i3]; simp; omega
+    · simp only [List.length_cons, List.range'_succ, List.map_cons]
+      rw [i4, i5 h.next (by omega)]
+      simp only [get_alloc, if_true]
+      congr 1
+      apply List.map_congr_left
+      intro j hj
+      have := vr j hj
+      grind
+    · intro j hj
+      rw [i5 j (by omega)]
+      grind
+
+
+/-! ## Index-set deletion -/
+
+theorem keepFrom_congr {idx idx' : List Nat} (e : ∀ n, n ∈ idx ↔ n ∈ idx') (n : Nat) (l : List ObjId) :
+    keepFrom idx n l = keepFrom idx' n l := by
+  induction l generalizing n with
+  | nil => rfl
+  | cons a t ih => simp only [keepFrom, e n, ih]
+
+theorem keepFrom_all (idx : List Nat) (n : Nat) (l : List ObjId) (hi : ∀ d ∈ idx, d < n) :
+    keepFrom idx n l = l := by
+  induction l generalizing n with
+  | nil => rfl
+  | cons a t ih =>
+    have : n ∉ idx := fun c => Nat.lt_irrefl _ (hi n c)
+    simp only [keepFrom, this, if_false]
+    rw [ih (n + 1) (fun d hd => Nat.lt_succ_of_lt (hi d hd))]
+
+/-- erasing position `d` first, then the smaller positions `ds` -/
+theorem keepFrom_eraseIdx (ds : List Nat) (d n : Nat) (l : List ObjId) (hn : n ≤ d) (hds : ∀ x ∈ ds, x < d) :
+    keepFrom ds n (l.eraseIdx (d - n)) = keepFrom (d :: ds) n l := by
+  induction l generalizing n with
+  | nil => rfl
+  | cons a t ih =>
+    rcases Nat.lt_or_eq_of_le hn with hlt | heq
+    · have e : d - n = (d - (n + 1)) + 1 := by omega
+      rw [e, List.eraseIdx_cons_succ]
+      have hnd : n ≠ d := by omega
+      simp only [keepFrom, List.mem_cons, hnd, false_or]
+      rw [ih (n + 1) (by omega)]
+    · subst heq
+      simp only [Nat.sub_self, List.eraseIdx_cons_zero, keepFrom, List.mem_cons, true_or, if_true]
+      rw [keepFrom_all ds n t hds, keepFrom_all (n :: ds) (n + 1) t]
+      intro x hx
+      rcases List.mem_cons.1 hx with rfl | hx
+      · omega
+      · exact Nat.lt_succ_of_lt (hds x hx)
+
+theorem length_keepFrom_le (idx : List Nat) (n : Nat) (l : List ObjId) : (keepFrom idx n l).length ≤ l.length := by
+  induction l generalizing n with
+  | nil => simp [keepFrom]
+  | cons a t ih =>
+    simp only [keepFrom]
+    split
+    · exact Nat.le_succ_of_le (ih _)
+    · simp [ih]
+
+/-- the erase loop over strictly descending in-range indices computes `keepFrom` -/
+theorem eraseDesc_spec (ds : List Nat) (l : List ObjId) (desc : ds.Pairwise (· > ·))
+    (inr : ∀ d ∈ ds, d < l.length) : eraseDesc l ds = (keepFrom ds 0 l, none) := by
+  induction ds generalizing l with
+  | nil => simp [eraseDesc, keepFrom_all]
+  | cons d ds ih =>
+    have hd := inr d (List.mem_cons_self ..)
+    have pw := List.pairwise_cons.1 desc
+    simp only [eraseDesc, ge_iff_le, Nat.not_le.2 hd, if_false]
+    rw [ih (l.eraseIdx d) pw.2 (fun x hx => by
+      have := pw.1 x hx
+      rw [List.length_eraseIdx_of_lt hd]; omega)]
+    rw [← keepFrom_eraseIdx ds d 0 l (Nat.zero_le _) (fun x hx => pw.1 x hx)]
+    simp
+
+theorem eraseDesc_head_out (d : Nat) (ds : List Nat) (l : List ObjId) (h : l.length ≤ d) :
+    eraseDesc l (d :: ds) = (l, some .index) := by
+  simp [eraseDesc, h]
+
+/-! ### the sort -/
+
+theorem insertSorted_perm (a : Nat) (l : List Nat) : (insertSorted a l).Perm (a :: l) := by
+  induction l with
+  | nil => exact List.Perm.refl _
+  | cons b t ih =>
+    simp only [insertSorted]
+    split
+    · exact List.Perm.refl _
+    · exact (List.Perm.cons b ih).trans (List.Perm.swap a b t)
+
+theorem sortNat_perm (l : List Nat) : (sortNat l).Perm l := by
+  induction l with
+  | nil => exact List.Perm.refl _
+  | cons a t ih => exact (insertSorted_perm a _).trans (List.Perm.cons a ih)
+
+theorem insertSorted_sorted (a : Nat) (l : List Nat) (s : l.Pairwise (· ≤ ·)) :
+    (insertSorted a l).Pairwise (· ≤ ·) := by
+  induction l with
+  | nil => simp [insertSorted]
+  | cons b t ih =>
+    have pw := List.pairwise_cons.1 s
+    simp only [insertSorted]
+    split
+    · next hab =>
+      refine List.pairwise_cons.2 ⟨fun x hx => ?_, s⟩
+      rcases List.mem_cons.1 hx with rfl | hx
+      · exact hab
+      · exact Nat.le_trans hab (pw.1 x hx)
+    · next hab =>
+      refine List.pairwise_cons.2 ⟨fun x hx => ?_, ih pw.2⟩
+      rcases List.mem_cons.1 ((insertSorted_perm a t).subset hx) with rfl | hx
+      · omega
+      · exact pw.1 x hx
+
+theorem sortNat_sorted (l : List Nat) : (sortNat l).Pairwise (· ≤ ·) := by
+  induction l with
+  | nil => simp [sortNat]
+  | cons a t ih => exact insertSorted_sorted a _ ih
+
+theorem sortNat_desc (idx : List Nat) (nd : idx.Nodup) : (sortNat idx).reverse.Pairwise (· > ·) := by
+  rw [List.pairwise_reverse]
+  have nd' : (sortNat idx).Nodup := (sortNat_perm idx).nodup_iff.2 nd
+  exact ((sortNat_sorted idx).and nd').imp (fun ⟨h1, h2⟩ => Nat.lt_of_le_of_ne h1 h2)
+
+/-- **index-set deletion, in range**: exactly the complement survives, in order -/
+theorem deleteParametersIdx_spec (l : List ObjId) (idx : List Nat) (nd : idx.Nodup)
+    (inr : ∀ d ∈ idx, d < l.length) : deleteParametersIdx l idx = (keepFrom idx 0 l, none) := by
+  unfold deleteParametersIdx
+  rw [eraseDesc_spec _ l (sortNat_desc idx nd) (fun d hd => inr d ((sortNat_perm idx).subset (List.mem_reverse.1 hd)))]
+  rw [keepFrom_congr (idx' := idx)]
+  intro n
+  rw [List.mem_reverse]
+  exact (sortNat_perm idx).mem_iff
+
+/-- **index-set deletion, out of range**: raises before any erase (the largest index is tried first) -/
+theorem deleteParametersIdx_out (l : List ObjId) (idx : List Nat) (out : ∃ d ∈ idx, l.length ≤ d) :
+    deleteParametersIdx l idx = (l, some .index) := by
+  unfold deleteParametersIdx
+  obtain ⟨d, hd, hl⟩ := out
+  -- the head of the reversed sorted list is the maximum
+  have hmem : d ∈ (sortNat idx).reverse := List.mem_reverse.2 ((sortNat_perm idx).mem_iff.2 hd)
+  cases e : (sortNat idx).reverse with
+  | nil => rw [e] at hmem; cases hmem
+  | cons m rest =>
+    have hsorted : (m :: rest).Pairwise (· ≥ ·) := by
+      rw [← e, List.pairwise_reverse]; exact sortNat_sorted idx
+    have : d ≤ m := by
+      rw [e] at hmem
+      rcases List.mem_cons.1 hmem with rfl | h
+      · exact Nat.le_refl _
+      · exact (List.pairwise_cons.1 hsorted).1 d h
+    exact eraseDesc_head_out m rest l (Nat.le_trans hl this)
+
+
 end Bpp.ParamList
